@@ -19,9 +19,9 @@ Code modelled, branch by branch:
 Specification side (written from the property text, not from the control flow): `candidates`/`firstSome`
 (precedence list), `SatReq` (+ executable `satReqB`), `specFormProp(s)`/`encodeForm` (what form fields encode,
 what a client writes), `specDecode`, `Accept` (+ executable `acceptB`).
-Exclusion classes (known findings): `roNull` (ReadOnlyNull), `formUnparsable` (FormFieldUnparsable, #20),
-`formNullStored` (FormNullForMissing); lifted to whole cases by `exclReadOnlyNull`, `exclFormUnparsable`,
-`exclFormNull`.
+Exclusion class (known finding): `formUnparsable` (FormFieldUnparsable, #20), lifted to whole cases by
+`exclFormUnparsable`. (The former classes ReadOnlyNull and FormNullForMissing were repaired in the repository:
+e80060c, 2621864; the model follows the repaired code.)
 
 What is abstracted (inputs of the model, produced by the trusted parsers in the correspondence run):
   `BodyIn.json`  – what `encoding/json` makes of the whole body text (none = not exactly one JSON value),
@@ -140,11 +140,12 @@ def maxOK (mx : Option Int) (n : Int) (isHalf : Bool) : Bool :=
 
 def isRO (p : Option RS) : Bool := match p with | some s => s.ro | none => false
 
-/-- the request-side pre-loop of `visitJSONObject`: a readOnly property whose value is present **and not
-null** (`value[propName] != nil`) is an error unless read-only validation is disabled -/
+/-- the request-side pre-loop of `visitJSONObject`: a readOnly property whose key is **present** in the value
+(`_, present := value[propName]`; since repair e80060c also when its value is null) is an error unless
+read-only validation is disabled -/
 def roLoopOK (exro : Bool) (props : List (Str × RS)) (kvs : List (Str × V)) : Bool :=
   (keys props).all fun k =>      -- `for _, propName := range sortedNames { propSchema := schema.Properties[propName] …`
-    !(isRO (lookup k props) && !exro) || (match lookup k kvs with | some v => v.isNull | none => true)
+    !(isRO (lookup k props) && !exro) || (lookup k kvs).isNone
 
 /-- the `required` loop: a missing key is an error unless the property is declared readOnly (request side;
 this exemption does not look at the exclusion option) -/
@@ -242,25 +243,6 @@ def satFieldsB (exro : Bool) (s : RS) : List (Str × V) → Bool
     (match lookup k s.props with
      | some p => satReqB exro p v
      | none => s.addl != some false) && satFieldsB exro s r
-end
-
-mutual
-/-- Exclusion class `ReadOnlyNull` (finding F-C06-2): somewhere in the value an object carries a key with the
-value `null` for a property declared readOnly, while read-only validation is on. The code tests
-`value[prop] != nil`, so the key is *present* but not reported. -/
-def roNull (exro : Bool) (s : RS) : V → Bool
-  | .arr xs => (match s.items with | none => false | some it => roNullItems exro it xs)
-  | .obj kvs => roNullFields exro s kvs
-  | _ => false
-def roNullItems (exro : Bool) (it : RS) : List V → Bool
-  | [] => false
-  | v :: r => roNull exro it v || roNullItems exro it r
-def roNullFields (exro : Bool) (s : RS) : List (Str × V) → Bool
-  | [] => false
-  | (k, v) :: r =>
-    (match lookup k s.props with
-     | some p => (p.ro && !exro && v.isNull) || roNull exro p v
-     | none => false) || roNullFields exro s r
 end
 
 /-! ### Decoders -/
@@ -485,11 +467,14 @@ def formPre : List (Str × RS) → Pre
       | some it => if primTy it.ty then formPre r else .err
     else formPre r
 
+/-- the property loop of `decodeSchemaConstructs`: a property is skipped on error **and** (since repair
+2621864) when there is no value to store (`err != nil || value == nil`) -/
 def decodeFormProps (fields : List (Str × List Str)) (encs : List (Str × Enc)) : List (Str × RS) → List (Str × V)
   | [] => []
   | (k, p) :: r =>
     match decodeFormProp fields k p (lookup k encs) with
     | none => decodeFormProps fields encs r
+    | some .null => decodeFormProps fields encs r
     | some v => (k, v) :: decodeFormProps fields encs r
 
 /-- `UrlencodedBodyDecoder` -/
@@ -624,11 +609,15 @@ def specFormProp (fields : List (Str × List Str)) (name : Str) (p : RS) (e : Op
   | some [] => some none
   | some (v0 :: vs) =>
     match p.ty with
-    | none => some (some (.str v0))
+    | none => some none      -- no declared type: the field is not decodable, it is ignored like an undeclared field
     | some .array =>
       (match arrayRaw e v0 vs with
        | none => none
-       | some raw => (encodesAll ((itemTy p).getD .string) raw).map fun l => some (.arr l))
+       | some raw =>
+         -- an empty text is "no value" (the library's documented convention, `parsePrimitive` / `parseArray`:
+         -- "if the items are nil, then the array is nil")
+         if raw.any (fun t => t.isEmpty) then some none
+         else (encodesAll ((itemTy p).getD .string) raw).map fun l => some (.arr l))
     | some .object => none
     | some t => if v0 = [] then some none else (encodesPrim t v0).map some
       -- an empty text is "no value": the library's documented convention (`parsePrimitive` returns nil for "")
@@ -714,7 +703,7 @@ def FormEncodable (p : RS) (e : Option Enc) (v : V) : Prop :=
   match p.ty with
   | some .array =>
     ∃ it t vs ts, p.items = some it ∧ it.ty = some t ∧ primTy (some t) = true ∧ v = .arr vs ∧ vs ≠ [] ∧
-      (∀ x ∈ vs, hasTy t x = true) ∧ showAll vs = some ts ∧
+      (∀ x ∈ vs, hasTy t x = true) ∧ showAll vs = some ts ∧ (∀ x ∈ ts, x ≠ []) ∧
       (smExplode e = true ∨ ∃ d, styleDelim e = some d ∧ ∀ x ∈ ts, d ∉ x)
   | some .object => False
   | some t => hasTy t v = true ∧ ∀ txt, showPrim v = some txt → txt ≠ []
@@ -763,15 +752,6 @@ value of the declared type; the decoder drops the property (`continue` on error)
 def formUnparsable (fields : List (Str × List Str)) (encs : List (Str × Enc)) (props : List (Str × RS)) : Bool :=
   props.any fun (k, p) => (specFormProp fields k p (lookup k encs)).isNone
 
-/-- class `FormNullForMissing` (finding F-C06-3): the decoder stores an explicit `null` for a declared
-property it has no value for — the field is absent, its text is empty (also an empty array item), or the
-property has no type -/
-def formNullStored (fields : List (Str × List Str)) (encs : List (Str × Enc)) (props : List (Str × RS)) : Bool :=
-  props.any fun (k, p) =>
-    match decodeFormProp fields k p (lookup k encs) with
-    | some .null => true
-    | _ => false
-
 /-- well-formed per-property encodings: a style other than `form` only on array properties and only
 `spaceDelimited` / `pipeDelimited` (what `Encoding.Validate` admits for arrays besides deepObject) -/
 def encsWF (encs : List (Str × Enc)) (props : List (Str × RS)) : Bool :=
@@ -796,11 +776,6 @@ def exclFormUnparsable (reg : List (Str × DecK)) (rb : ReqBody) (ct : Str) (b :
   | some (s, encs, fields) => formUnparsable fields encs s.props
   | none => false
 
-def exclFormNull (reg : List (Str × DecK)) (rb : ReqBody) (ct : Str) (b : BodyIn) : Bool :=
-  match formRun reg rb ct b with
-  | some (s, encs, fields) => formNullStored fields encs s.props
-  | none => false
-
 def formEncsWF (reg : List (Str × DecK)) (rb : ReqBody) (ct : Str) (b : BodyIn) : Bool :=
   match formRun reg rb ct b with
   | some (s, encs, _) => encsWF encs s.props
@@ -815,10 +790,5 @@ def decodedValue (reg : List (Str × DecK)) (rb : ReqBody) (ct : Str) (b : BodyI
     match mt.schema with
     | none => none
     | some s => match decodeBody reg ct s mt.encs b with | .val v => some (s, v) | _ => none
-
-def exclReadOnlyNull (reg : List (Str × DecK)) (rb : ReqBody) (ct : Str) (b : BodyIn) (exro : Bool) : Bool :=
-  match decodedValue reg rb ct b with
-  | some (s, v) => roNull exro s v
-  | none => false
 
 end KinModel.Body
